@@ -106,7 +106,7 @@ class EnipWorld(object):
         self.lat_mode = params.get('lat_mode')
 
     # ------------------------------------------------------------------ configuration
-    def gen_tags(self, ntags=None, types=None, maxlen=None, shared=True):
+    def gen_tags(self, ntags=None, types=None, maxlen=None, shared=True, min_storages=1):
         """Swarm tag set -> Model (and the argv tag specs)."""
         g = self.gen
         budget = self.params.get('budget')
@@ -119,7 +119,11 @@ class EnipWorld(object):
         names = list(NAMES)
         specs = []
         addr_pool = []
-        for t in range(ntags):
+        t = -1
+        while True:
+            t += 1
+            if t >= ntags and len(model.store) >= min_storages:
+                break
             name = names.pop(g.draw(len(names), 'name'))
             tname = g.choice(types, 'ttype')
             lm = maxlen or 1200
@@ -244,28 +248,31 @@ class EnipWorld(object):
             else:
                 att.default[:] = list(vals)
 
-    def state_diff(self):
-        """Differences between the simulator's state and the model: list of (sid, index, got, want)."""
+    def state_diff(self, skip=()):
+        """Differences between the simulator's state and the model: list of (sid, index, got, want)
+        (at most 4 per storage)."""
         got = self.peek()
         out = []
         for sid, want in self.model.store.items():
-            if sid not in got:
+            if sid not in got or sid in skip:
                 continue        # auto tag not yet bound
             g = got[sid]
             tname = self.model.stype[sid]
             if g is None or len(g) != len(want):
                 out.append((sid, -1, None if g is None else len(g), len(want)))
                 continue
+            n = 0
             for i, (a, b) in enumerate(zip(g, want)):
                 if not same_value(tname, a, b):
                     out.append((sid, i, a, b))
-                    if len(out) > 8:
-                        return out
+                    n += 1
+                    if n >= 4:
+                        break
         return out
 
     # ------------------------------------------------------------------ running
     def violation(self, cls, msg, **key):
-        v = dict(cls=cls, msg=str(msg)[:600], key=key, at=self.sched.seq)
+        v = dict(cls=cls, msg=str(msg)[:3000], key=key, at=self.sched.seq)
         self.violations.append(v)
         self.sched.log('VIOLATION', cls)
         return v
